@@ -46,11 +46,11 @@ theorem replaceCallSpread_Er (cfg : Config) (cx : Cx) (lo hi : Nat) (member' mem
       obtain ⟨rfl, -⟩ := he
       subst ea eg
       have hnbArgs : noBlkL ([] ++ [exprOrSpread (tempIdent s.counter) .expr] ++ more) = true := by
-        simp [noBlk_exprOrSpread .expr (noBlk_tempIdent _), nb]
+        simp [noBlk_exprOrSpreadE .expr (noBlk_tempIdentE _), nb]
       intro m hbr σ hσ
       obtain ⟨first'', asg3'', rfl, hfirst, hasg⟩ := ddParen_BRg_inv hbr hnbArgs
       obtain ⟨c'', xs'', rfl, hcc, hxs⟩ := hfirst.call_inv
-      rw [BRg_noBlk (noBlk_member (noBlk_tempIdent _) (noBlk_pname _ _)) hcc]
+      rw [BRg_noBlk (noBlk_memberE (noBlk_tempIdentE _) (noBlk_pnameE _ _)) hcc]
       obtain ⟨k1, new'', rfl, hk1, hnew⟩ := BRgL.append_inv hasg
       simp only [List.nil_append] at hk1
       obtain ⟨am'', rfl, ham⟩ := BRgL.single_inv hk1
@@ -165,11 +165,11 @@ theorem replaceCallWithoutCallee_Er (cfg : Config) (cx : Cx) (lo hi : Nat) (name
         obtain ⟨rfl, -⟩ := he
         subst ea eg
         have hnbArgs : noBlkL ([Node.arg none (.ident (.user method) isp), .arg none (.ident (.user "undefined") csp)] ++ more) = true := by
-          simp [noBlk_arg (noBlk_ident _ _), nb]
+          simp [noBlk_argE (noBlk_identE _ _), nb]
         intro m hbr σ hσ
         obtain ⟨first'', asg'', rfl, hfirst, hasg⟩ := ddParen_BRg_inv hbr hnbArgs
         obtain ⟨c'', xs'', rfl, hcc, hxs⟩ := hfirst.call_inv
-        rw [BRg_noBlk (noBlk_ident _ _) hcc]
+        rw [BRg_noBlk (noBlk_identE _ _) hcc]
         obtain ⟨Δa, eA, wA⟩ := A asg'' hasg σ hσ
         have hσa : cx.ext (eraseAsg σ asg'') := by rw [eA]; exact Cx.ext_append hσ (wA.avoidCx hw)
         obtain ⟨Xc, Δc, eC, sC, wC⟩ := hc _ (BRg.refl _) _ hσa
